@@ -254,6 +254,10 @@ def main(argv):
             if dis:
                 disagreements.append((rec, dis))
             v = record_violation(prop, rec)
+            if prop == "C17" and (rec.get("model") or {}).get("orddep") == "true":
+                # the writer oracle compares the bytes of several generations; on inputs whose output
+                # depends on Go's map order (C14's subject, F-22) they differ for that reason alone
+                v = ""
             expect = (rec.get("expect") or {}).get(prop)
             if rec.get("corpus") and rec.get("fast"):
                 # the corpus is run through the fast harness for the oracle only that stage has
